@@ -176,6 +176,22 @@ def from_nested(data, dtype=None):
         return new_arr((), lambda idx: v, dtype or scalar_dtype(v))
     if isinstance(data, SeqVal):
         r = data.reader()
+        qpos = sv.fresh_int("pos")
+        probe = r(qpos) if not is_conc(data.length) or data.length > 0 else None
+        if isinstance(probe, Arr):
+            # symbolic-length list of equally shaped arrays (built by appends in a loop): stack along a new first axis
+            shp = probe.shape
+            for dd in shp:
+                if not is_conc(dd) and _mentions_index(dd, qpos):
+                    raise EngineError("np.array of a list of arrays whose shape depends on the position")
+            dt = dtype or probe.dtype
+
+            def fn(idx, r=r):
+                item = r(idx[0])
+                if not isinstance(item, Arr) or item.ndim != len(shp):
+                    raise EngineError("ragged list of arrays")
+                return _cast(item.get(tuple(idx[1:])), dt)
+            return new_arr((data.length,) + tuple(shp), _memo(fn), dt)
         return new_arr((data.length,), lambda idx: r(idx[0]), dtype or "float")
     if isinstance(data, (list, tuple)):
         items = [from_nested(x) if not sv.is_scalar(x) else x for x in data]
@@ -195,6 +211,20 @@ def from_nested(data, dtype=None):
         dt = dtype or promote(*[s.dtype for s in subs])
         return new_arr((len(subs),) + tuple(shp), lambda idx: _pick([r(idx[1:]) for r in readers], idx[0]) if is_conc(idx[0]) else _pick_lazy(readers, idx), dt)
     raise EngineError(f"np.array of {type(data).__name__}")
+
+
+def _mentions_index(dd, q):
+    import z3
+    qid, seen, stack = q.t.get_id(), set(), [sv.znum(dd)]
+    while stack:
+        e = stack.pop()
+        if e.get_id() in seen:
+            continue
+        seen.add(e.get_id())
+        if e.get_id() == qid:
+            return True
+        stack.extend(e.children())
+    return False
 
 
 def _pick_lazy(readers, idx):
